@@ -130,6 +130,40 @@ Definition kcfg_integer_mate (nc np : nat) (decn : list Z) (xmap : list (list Z)
     end
   else None.
 
+Definition kcfg_binary_mate (nc np : nat) (decn : list Z) (xmap : list (list Z)) (choice perm perm2 : list nat)
+  : option (list (list Z)) :=
+  if kcfg_shape_ok nc np && xmap_ok np xmap then
+    match rep_options decn with
+    | None => None
+    | Some opts =>
+        let n := Z.to_nat (k_bmate_size (zn nc)) in
+        match tiled_choice opts n (k_bmate_replace (zn (length opts)) (zn nc) (zn np)) choice perm with
+        | None => None
+        | Some x => if Nat.eqb (length perm2) n then k_bmate_lookup xmap_rows xmap_cols xmap (permute 0%Z perm2 x) else None
+        end
+    end
+  else None.
+Definition kcfg_real_mate_f (nc np : nat) (decn : list float) (xmap : list (list Z)) (order : list nat) (off : float)
+    (perm perm2 : list nat) : option (list (list Z)) :=
+  if kcfg_shape_ok nc np && xmap_ok np xmap then
+    let n := Z.to_nat (k_rmate_size (zn nc)) in
+    let aw := k_rmate_args (seq 0 (length decn)) decn in
+    match sus_f (snd aw) order n off perm with
+    | None => None
+    | Some sel => if Nat.eqb (length perm2) n then k_rmate_lookup xmap_rows xmap_cols xmap (permute 0%Z perm2 (zs sel)) else None
+    end
+  else None.
+Definition kcfg_real_mate_q (nc np : nat) (decn : list Q) (xmap : list (list Z)) (order : list nat) (off : Q)
+    (perm perm2 : list nat) : option (list (list Z)) :=
+  if kcfg_shape_ok nc np && xmap_ok np xmap then
+    let n := Z.to_nat (k_rmate_size (zn nc)) in
+    let aw := k_rmate_args (seq 0 (length decn)) decn in
+    match sus_q (snd aw) order n off perm with
+    | None => None
+    | Some sel => if Nat.eqb (length perm2) n then k_rmate_lookup xmap_rows xmap_cols xmap (permute 0%Z perm2 (zs sel)) else None
+    end
+  else None.
+
 (** * 4. the multi-objective choice of <Enc>SelectionProtocol.select:
       score = ndset_wt * ndset_trans(front); ix = score.argmax(); xconfig_decn = soln_decn[ix] *)
 Definition argmin (l : list Q) : option nat := argmax (map Qopp l).
